@@ -23,6 +23,11 @@ def run(ctx):
     q, rng = ctx.quick, ctx.rng
     ctx.mc('mc/MC_Ref.tla', 'mc/MC_Ref_quick.cfg' if q else 'mc/MC_Ref_thorough.cfg',
            'reference layer: Clifford relations + word rewriting + lemmas')
+    rl = ctx.mc('mc/MC_LazyTable.tla', 'mc/MC_LazyTable_getitem.cfg', 'LazyTable (d > 6 tables): the value a reader obtains is a function of the key alone, entries never change', workers=2)
+    rc = ctx.mc('mc/MC_LazyTable.tla', 'mc/MC_LazyTable_get.cfg', 'control: reading the lazy table with dict.get (no __missing__) must be refuted', workers=2)
+    if not rc['violated']:
+        from tlc import MachineryError
+        raise MachineryError('control run of LazyTable did not find a counterexample')
     dump = os.path.join(ctx.work, 'algebra.dump')
     r = ctx.mc('mc/MC_Algebra.tla', 'mc/MC_Algebra_quick.cfg' if q else 'mc/MC_Algebra_thorough.cfg',
                'AlgebraModel refines CliffordRef on every enumerated configuration', extra_args=('-dump', dump))
